@@ -396,6 +396,25 @@ def sort_check(ctx):
                 if sorted(map(id, got)) != sorted(map(id, perm)):
                     rec.violation("C12:sort:issues-lost-or-copied")
                     return
+    # column labels are numbers in sheets without a header row, and absent on row-level issues: any mixture sorts
+    cols = [0, 1, 10, "c1", None]
+    for combo in itertools.product(cols, repeat=3):
+        base = []
+        for i, c in enumerate(combo):
+            d = mk(i, "a.tsv", None, None, 2 if i < 2 else 3)
+            if c is not None:
+                d["ec_column"] = c
+            base.append(d)
+        for perm in itertools.permutations(base):
+            n += 1
+            try:
+                got = sort_issues(list(perm))
+            except Exception as e:
+                rec.violation("C12:sort:raises:" + type(e).__name__, columns=[repr(c) for c in combo], error=repr(e)[:200])
+                return
+            if [refkey(d) for d in got] != sorted(refkey(d) for d in perm):
+                rec.violation("C12:sort:documented-keys-out-of-order-with-mixed-columns", columns=[repr(c) for c in combo])
+                return
     rec.n("evaluations", n)
     rec.n("transitions", n)
     rec.outcome("sort-ok")
